@@ -2,7 +2,8 @@
    Only statements, each closed by `exact` of a lemma proved in Alu/AluProofs.v.
    Model: Alu/AluModel.v (+ generated Gen/AluTable.v); specification: Alu/AluSpec.v. *)
 From Coq Require Import ZArith List.
-From FV Require Import Alu.AluSyntax Gen.AluTable Alu.AluModel Alu.AluSpec Alu.AluProofs.
+From FV Require Import Alu.AluSyntax Gen.AluTable Alu.AluModel Alu.AluSpec Alu.AluProofs Alu.AluMemTable.
+From FV Require Vm.OwnModel.
 Open Scope N_scope.
 
 (* every wide instruction, once its immediate decodes and its operands are readable: compares write
@@ -135,3 +136,124 @@ Theorem C22_read_panics :
     (forall ra mode ind, 16 <= ra -> alu_wideint_cmp w ra b c (mode, ind) s = Panic e s).
 Proof. exact wide_read_panics. Qed.
 Print Assumptions C22_read_panics.
+
+(* ---------------------------------------------------------------- panic table, memory half
+   (derived from the refusal theorems of C24, Vm/OwnProofs.v, through bridging lemmas) *)
+
+(* the flat memory view of the ALU model IS the model of C24 (and hence the flat array of C23) *)
+Theorem C22_memory_bridge :
+  forall (o : owner) (m : mem) (a n : N) (data : bytes),
+    code_res (fun x => x) (mem_verify m a n) = OwnModel.verify (to_amem m) a n /\
+    has_ownership_range o a (a + n) = OwnModel.has_ownership_range (to_ownregs o) a (a + n) /\
+    code_res to_amem (mem_write o m a data) = OwnModel.mem_write (to_amem m) (to_ownregs o) a data.
+Proof. exact memory_bridge. Qed.
+Print Assumptions C22_memory_bridge.
+
+(* operand reads: MemoryOverflow beyond MEM_SIZE; UninitalizedMemoryAccess in the gap or spanning
+   both regions; success otherwise — and nothing else can happen *)
+Theorem C22_read_table :
+  forall (w : width) (m : mem) (a : N),
+    (MEM_SIZE < a + N.of_nat (wbytes w) -> read_wide w m a = RErr MemoryOverflow) /\
+    (a + N.of_nat (wbytes w) <= MEM_SIZE -> m_stack_len m < a + N.of_nat (wbytes w) -> a < m_hp m ->
+       read_wide w m a = RErr UninitalizedMemoryAccess) /\
+    (a + N.of_nat (wbytes w) <= MEM_SIZE -> (a + N.of_nat (wbytes w) <= m_stack_len m \/ m_hp m <= a) ->
+       exists v, read_wide w m a = ROk v).
+Proof. exact read_wide_table. Qed.
+Print Assumptions C22_read_table.
+
+Theorem C22_read_total :
+  forall (w : width) (m : mem) (a : N),
+    (exists v, read_wide w m a = ROk v) \/ read_wide w m a = RErr MemoryOverflow \/
+    read_wide w m a = RErr UninitalizedMemoryAccess.
+Proof. exact read_wide_total. Qed.
+Print Assumptions C22_read_total.
+
+(* destination write: the same two reasons, MemoryOwnership for an accessible range the ownership
+   registers do not cover, success otherwise *)
+Theorem C22_write_table :
+  forall (o : owner) (m : mem) (d : N) (data : bytes),
+    (MEM_SIZE < d + lenN data -> mem_write o m d data = RErr MemoryOverflow) /\
+    (d + lenN data <= MEM_SIZE -> m_stack_len m < d + lenN data -> d < m_hp m ->
+       mem_write o m d data = RErr UninitalizedMemoryAccess) /\
+    (d + lenN data <= MEM_SIZE -> (d + lenN data <= m_stack_len m \/ m_hp m <= d) ->
+       has_ownership_range o d (d + lenN data) = false -> mem_write o m d data = RErr MemoryOwnership) /\
+    (d + lenN data <= MEM_SIZE -> (d + lenN data <= m_stack_len m \/ m_hp m <= d) ->
+       has_ownership_range o d (d + lenN data) = true -> exists m', mem_write o m d data = ROk m').
+Proof. exact mem_write_table. Qed.
+Print Assumptions C22_write_table.
+
+Theorem C22_write_only_owned :
+  forall (o : owner) (m : mem) (d : N) (data : bytes) (m' : mem), mem_write o m d data = ROk m' ->
+    forall x, m_byte m' x <> m_byte m x -> OwnModel.in_owned (to_ownregs o) x.
+Proof. exact mem_write_only_owned. Qed.
+Print Assumptions C22_write_only_owned.
+
+(* order: the first failing access determines the reason *)
+Theorem C22_second_read_panics :
+  forall (w : width) (s : state) (d b c dd : N) (e : reason) (l : N),
+    read_wide w (memo s) b = ROk l ->
+    (forall ind, read_arg w ind (memo s) c = RErr e ->
+       (forall op, alu_wideint_op w d b c (op, ind) s = Panic e s) /\
+       alu_wideint_div w d b c ind s = Panic e s /\
+       alu_wideint_mul w d b c (true, ind) s = Panic e s /\
+       (forall ra mode, 16 <= ra -> alu_wideint_cmp w ra b c (mode, ind) s = Panic e s)) /\
+    (read_wide w (memo s) c = RErr e ->
+       alu_wideint_muldiv w d b c dd s = Panic e s /\ alu_wideint_addmod w d b c dd s = Panic e s /\
+       alu_wideint_mulmod w d b c dd s = Panic e s).
+Proof. exact second_read_panics. Qed.
+Print Assumptions C22_second_read_panics.
+
+Theorem C22_mul_direct_lhs :
+  forall (w : width) (s : state) (d b c : N) (e : reason) (ir : bool),
+    read_arg w ir (memo s) c = RErr e -> alu_wideint_mul w d b c (false, ir) s = Panic e s.
+Proof. exact mul_direct_lhs_second_read_panics. Qed.
+Print Assumptions C22_mul_direct_lhs.
+
+Theorem C22_third_read_panics :
+  forall (w : width) (s : state) (d b c dd : N) (e : reason) (l r : N),
+    read_wide w (memo s) b = ROk l -> read_wide w (memo s) c = ROk r -> read_wide w (memo s) dd = RErr e ->
+    alu_wideint_muldiv w d b c dd s = Panic e s /\ alu_wideint_addmod w d b c dd s = Panic e s /\
+    alu_wideint_mulmod w d b c dd s = Panic e s.
+Proof. exact third_read_panics. Qed.
+Print Assumptions C22_third_read_panics.
+
+(* the destination is checked last: on a refused write $of/$err already hold the specified values *)
+Theorem C22_dest_failure_after_flags :
+  forall (w : width) (s : state) (d v o e : N) (r : reason),
+    mem_write (ownership_registers s) (memo s) d (be_encode (wbytes w) v) = RErr r ->
+    (exists s'', finish_oe w s d (WMem v o e) = Panic r s'' /\ regs s'' REG_OF = o /\ regs s'' REG_ERR = e /\
+                 memo s'' = memo s /\ (forall x, x <> REG_OF -> x <> REG_ERR -> regs s'' x = regs s x)) /\
+    (exists s'', finish_eo w s d (WMem v o e) = Panic r s'' /\ regs s'' REG_OF = o /\ regs s'' REG_ERR = e /\
+                 memo s'' = memo s /\ (forall x, x <> REG_OF -> x <> REG_ERR -> regs s'' x = regs s x)).
+Proof. exact dest_failure_after_flags. Qed.
+Print Assumptions C22_dest_failure_after_flags.
+
+(* the instruction is its helper applied to the state left by the gas charge *)
+Theorem C22_exec_is_helper :
+  forall (cost guess : N) (i : instr) (s : state), cost <= regs s REG_CGAS ->
+    match alu_table (i_op i) with
+    | K_wcmp w => forall args, compare_from_imm (i_imm i) = Some args ->
+        exec_alu cost guess i s =
+        alu_wideint_cmp w (i_ra i) (regs (charged cost s) (i_rb i)) (regs (charged cost s) (i_rc i)) args (charged cost s)
+    | K_wop w => forall args, math_from_imm (i_imm i) = Some args ->
+        exec_alu cost guess i s =
+        alu_wideint_op w (regs (charged cost s) (i_ra i)) (regs (charged cost s) (i_rb i)) (regs (charged cost s) (i_rc i)) args (charged cost s)
+    | K_wmul w => forall args, mul_from_imm (i_imm i) = Some args ->
+        exec_alu cost guess i s =
+        alu_wideint_mul w (regs (charged cost s) (i_ra i)) (regs (charged cost s) (i_rb i)) (regs (charged cost s) (i_rc i)) args (charged cost s)
+    | K_wdiv w => forall args, div_from_imm (i_imm i) = Some args ->
+        exec_alu cost guess i s =
+        alu_wideint_div w (regs (charged cost s) (i_ra i)) (regs (charged cost s) (i_rb i)) (regs (charged cost s) (i_rc i)) args (charged cost s)
+    | K_wmuldiv w => exec_alu cost guess i s =
+        alu_wideint_muldiv w (regs (charged cost s) (i_ra i)) (regs (charged cost s) (i_rb i)) (regs (charged cost s) (i_rc i))
+                           (regs (charged cost s) (i_rd i)) (charged cost s)
+    | K_waddmod w => exec_alu cost guess i s =
+        alu_wideint_addmod w (regs (charged cost s) (i_ra i)) (regs (charged cost s) (i_rb i)) (regs (charged cost s) (i_rc i))
+                           (regs (charged cost s) (i_rd i)) (charged cost s)
+    | K_wmulmod w => exec_alu cost guess i s =
+        alu_wideint_mulmod w (regs (charged cost s) (i_ra i)) (regs (charged cost s) (i_rb i)) (regs (charged cost s) (i_rc i))
+                           (regs (charged cost s) (i_rd i)) (charged cost s)
+    | _ => True
+    end.
+Proof. exact exec_wide_unfold. Qed.
+Print Assumptions C22_exec_is_helper.
